@@ -73,7 +73,21 @@ POOL_VALUES = (
 )
 
 
+def gen_split_literals(rng):
+    """Two Literal members with a non-literal member BETWEEN them that also reads the later literal's value (and images it differently)."""
+    first, mid, later = rng.choice((
+        (('auto',), 'float', (0, 1)), ((0,), 'float', (1, 2)), (('today',), 'date', ('2023-09-05',)), (('none',), 'path', ('-', 'a/b')),
+        ((True,), 'int', (5,)), (('x',), 'fraction', ('1/3', 2)), (('a',), 'decimal', ('1.5',)), ((1,), 'complex', (2,)),
+    ))
+    ms = [Ty('lit', vals=first), member_ty(mid, rng), Ty('lit', vals=later)]
+    if rng.random() < 0.3:
+        ms.insert(rng.randint(0, 3), Ty('none'))
+    return Ty('union', ms)
+
+
 def gen_union(ctx, rng):
+    if rng.random() < 0.08:
+        return gen_split_literals(rng)
     fam = rng.choice(sorted(FAMILIES))
     names = list(FAMILIES[fam])
     n = rng.choice((2, 2, 3, 3, 4))
@@ -212,6 +226,8 @@ def run(ctx):
         vals = []
         for m in uty.a:
             vals.append(genval.member(m, rng))
+            if m.k == 'lit':
+                vals.extend(m.x['vals'])          # every literal value, so the members in between get to claim them first
         for _ in range(3):
             vals.append(rng.choice(POOL_VALUES))
         vals.append(genval.mutate(rng.choice(vals), rng))
